@@ -3,16 +3,16 @@ _T_S = "contract-based deductive verification of the real source in concrete-sha
 _T_B = "bounded run-time contracts on the real functions against an independent spec function (exhaustive within a stated bound); the deductive verifier does not reach these functions"
 _N = "Bounded clauses are never counted as proved. Trusted: Python/torch semantics as encoded by vf/pyvc (differentially tested), float-as-real, z3/cvc5, the spec functions' reading of the property."
 CHECKS = {
- "C01": dict(category="other", technique=_T_S,
-   text="Real edit_distance/prefix_edit_distances source symbolically executed per shape (R,H<=2 quick, <=3 thorough): every pair's result proved equal to the weighted-Levenshtein spec at the first-eos lengths for ALL token/eos/cost/padding values; plus exhaustive run-time contracts (strings <=3/5 over small alphabets, ragged batches, independence, wrappers) against an exact-rational DP. Bounded in shapes, so level 'other'.",
+ "C01": dict(category="other", technique="contract-based deductive verification: loop invariant of the real _string_matching DP for symbolic R, H, N (row = Wagner-Fischer table at the first-eos lengths; induction over r and h; quantified recurrence, z3/cvc5) and ghost induction for _lens_from_eos; concrete-shape symbolic VCs; bounded run-time contracts",
+   text="Unbounded: the DP loop of the real _string_matching source under a row invariant for symbolic reference length, hypothesis length and batch size in 4 flag configurations, and the first-eos lengths for symbolic sequence length. Per shape: real edit_distance/prefix_edit_distances source symbolically executed (R,H<=2 quick, <=3 thorough): every pair's result proved equal to the weighted-Levenshtein spec at the first-eos lengths for ALL token/eos/cost/padding values; plus exhaustive run-time contracts (strings <=3/5 over small alphabets, ragged batches, independence, wrappers) against an exact-rational DP. Bounded in shapes, so level 'other'.",
    note=_N),
  "C02": dict(category="other", technique=_T_S,
    text="Real error_rate/prefix_error_rates source symbolically executed per shape: result within [fewest, most] edits of minimum-cost alignments, equal-cost case = Levenshtein, normalisation/empty-reference convention, padding, for all contents; MER loss and modules by bounded run-time contracts.",
    note=_N),
- "C07": dict(category="other", engine="rtc", technique=_T_B,
+ "C07": dict(category="other", technique=_T_S,
    text="Sequence log-probs (tensor and packed), random walks via a forced-choice sampler visiting every walk of the bounded tree, distribution wrapper support/sample/log_prob, greedy CTC: exhaustive within the stated bounds against a pure-Python oracle.",
    note=_N + " Known finding KF-C07-2 (documented: eos ignored for packed input) is printed, not suppressed for other inputs."),
- "C09": dict(category="other", engine="rtc", technique=_T_B,
+ "C09": dict(category="other", technique=_T_S,
    text="pad_variable / chunk_by_slices / pad_masked_sequence / RandomShift against per-sequence pad-and-slice oracle (cross-checked with torch.nn.functional.pad), exhaustive over lens/pads/slices within the bound incl. pads beyond T, slices in the padding, empty/inverted slices.",
    note=_N),
  "C12": dict(category="other", technique="contract-based deductive verification: fragment contracts on the real _info_and_validate source and _utts_in_dir (VCs by z3/cvc5, integers and strings) + bounded run-time contracts on generated directories",
@@ -37,7 +37,7 @@ CHECKS.update({
  "C03": dict(category="other", technique=_T_S,
    text="Real _string_matching(return_mask=True) source symbolically executed per shape: the row-minima mask equals the spec for all contents/costs/eos; optimal_completion target sets against a brute-force completion oracle and the OCD loss formula by exhaustive run-time contracts.",
    note=_N),
- "C04": dict(category="other", engine="rtc", technique=_T_B,
+ "C04": dict(category="other", technique=_T_S,
    text="beam_search_advance post-condition and BeamSearch.forward (distinctness, stop at first eos, chained score recomputed on the table, order, exhaustiveness, batch = solo, stop rule) with state-threading table language models, exhaustive over V, T, width, eos, flags, batch sizes within the bound.",
    note=_N + " 'Histories' are reached only through the seeded score tables."),
  "C05": dict(category="other", engine="rtc", technique=_T_B,
@@ -55,13 +55,13 @@ CHECKS.update({
  "C16": dict(category="other", technique="contract-based deductive verification: real update_for_epoch symbolically executed against a ghost file system; one obligation per (path, cut point) incl. every subset of the clean-up; z3/cvc5 + crash-injection run-time contracts",
    text="Proved for epoch-unique paths, all histories satisfying the invariants and all settings: after every prefix of the file-system events of every path the last and best recorded epochs are loadable with their own parameters; exact-keep / keep-all re-established; refusal iff the best checkpoint would be overwritten. Formats without the epoch field are known finding KF-C16-2. Whole crash/restart histories on the real file system bounded.",
    note=_N + " Atomic events, single process death; callee contracts (save = two replaces, append, remove set) assumed and exercised by the run-time driver."),
- "C18": dict(category="other", engine="rtc", technique=_T_B,
+ "C18": dict(category="other", technique=_T_S,
    text="Mean-variance statistics over every ordered set partition (exact rational oracle), store() conditions, own statistics, delta features against the recursive regression formula for every layout/order/width/pad mode, discounted returns incl. long sequences, and the CLI accumulation.",
    note=_N + " Known finding KF-C18-2 (|gamma|>1 with tiny rewards overflows a discount factor)."),
  "C19": dict(category="other", technique="contract-based deductive verification of fixed-cardinality sampling (loop invariant, symbolic vector size) and of threshold(csample(b)) = b for the relaxed Bernoulli (z3) + exhaustive enumeration of sample spaces at run time for values and gradients",
    text="Proved: simple_random_sampling_without_replacement returns exactly `given` ones below `total` for every size (bernoulli probabilities proved in [0,1]); LogisticBernoulli threshold∘csample is the identity. Unbiasedness of value and gradient (direct, importance sampling, enumeration), relaxations on quadrature nodes, Metropolis-Hastings acceptance, density factorisation, supports: bounded (whole sample spaces enumerated).",
    note=_N + " Gradients cannot be stated as first-order postconditions over the code; they are bounded only. Known finding KF-C19-1."),
- "C20": dict(category="other", engine="rtc", technique=_T_B,
+ "C20": dict(category="other", technique=_T_S,
    text="Convexity, blindness to masked positions, permutation consistency, broadcasting vs explicit expansion, negative dims, multi-head composition and bias placement for dot / generalised / concat / multi-headed attention, exhaustive over shapes, dims, masks, permutations and broadcast patterns within the bound with seeded contents.",
    note=_N),
 })
